@@ -105,7 +105,7 @@ def random_cases(seed, count, nmin, nmax):
 
 def run(tier, seed):
     if tier == 'quick':
-        plan = [([(1, 2, 2), (2, 2, 2), (3, 2, 2)], None), ([(4, 2, 2)], 1), ([(5, 1, 1)], 1)]
+        plan = [([(1, 2, 2), (2, 2, 2), (3, 2, 2)], 3), ([(4, 2, 2)], 1)]
         clamp = [(2, 1, 1), (3, 1, 1), (4, 1, 1)]
         nrand, rmin, rmax = 1000, 6, 40
     else:
@@ -118,7 +118,7 @@ def run(tier, seed):
         return '; '.join('%d elements, <=%d groups, <=%d repeaters' % s for s in spaces)
 
     def vname(v):
-        return 'all five naming variants' if v is None else '%d naming variant(s) rotating with the case index' % v
+        return 'all five naming variants' if v is None else '%d of the five naming variants, rotating with the case index' % v
 
     c = Clause('skeleton-exhaustive', 'B',
                'every operator skeleton (ordered forest of elements; any run of siblings may be wrapped in a group, groups '
